@@ -65,10 +65,7 @@ def run(chk):
     rows = [x for x in rows if x.get('k') == 'conv']
     chk.extra['small_world'] = {'format_pairs': len(rows)}
     chk.exhaustive = True
-    obs = []
-    for part in core.parallel_map(_small, [(row, pid, tier, i) for i, row in enumerate(rows)], chunksize=4):
-        obs += part
     n = 800 if tier == 'quick' else 12000
-    for part in core.parallel_map(_wide, [(chk.seed * 1000 + i, pid, n // core.NPROC + 1) for i in range(core.NPROC)]):
-        obs += part
-    return obs
+    per = max(1, n // (core.NPROC * (1 if tier == 'quick' else 8)))
+    wide = [(chk.seed * 1000 + i, pid, per) for i in range(n // per)]
+    return core.stream(_small, [(row, pid, tier, i) for i, row in enumerate(rows)], _wide, wide, tier, step=400, chunksize=4)
